@@ -511,6 +511,18 @@ func main() {
 			}
 		}
 	}
+	// 2b. negated comparisons (the folder rewrites not (a < b) as a >= b, also for parameters)
+	//     and comparisons with equal operands
+	for _, o := range []string{"is", "isnt", "lt", "lte", "gt", "gte"} {
+		for _, k1 := range ks {
+			for _, k2 := range ks {
+				if !(core[k1.lit] && core[k2.lit]) || !vh.Thorough() && k1.lit != k2.lit && rnd.Intn(100) >= 30 {
+					continue
+				}
+				emit(un("not", bin(o, leaf(0), leaf(1))), k1, k2)
+			}
+		}
+	}
 	// 3. ternary and in
 	nrand := 240
 	if vh.Thorough() {
@@ -600,6 +612,12 @@ func main() {
 		args := []konst{pick(), pick(), pick()}
 		if rnd.Intn(3) > 0 { // mostly comparable operands
 			args = []konst{ks[2+rnd.Intn(15)], ks[2+rnd.Intn(15)], ks[2+rnd.Intn(15)]}
+		}
+		switch rnd.Intn(5) { // often exactly on a bound
+		case 0, 1:
+			args[1] = args[0]
+		case 2:
+			args[2] = args[0]
 		}
 		switch rnd.Intn(4) {
 		case 0, 1:
